@@ -1,1 +1,48 @@
-(* Props/C14.v -- stub, to be filled *)
+(* C14 -- the front end is total: malformed text gives an error, not a panic or hang.
+   Statements only; models in Front/Lex.v, Front/Parse.v, Front/Resolve.v, Extract/OpsParse.v (to_rust's TagResolver).
+
+   PARTIAL.  Proved: the tokenizer never returns an error value and panics only with the explicit panic! of the
+   unclosed comment block, or (overflow checks on) with the i32 overflow of the comment nesting counter after
+   2^31 - 1 unclosed "/*"  (C14_lex_total_partial; the characterisation "the text ends inside a block comment" of
+   DESIGN.md is decided by the check's oracle from the text, not proved).  NOT proved: C14_parse_total (fuel
+   sufficiency = termination of the recursive descent), C14_error_carries_token; the parser, resolver and to_rust
+   outcome classes are tied to the crate differentially on every generated input (op 3303), where fuel
+   exhaustion would appear as the answer -3.
+   Refuted: conversion to the Rust model does not return on a cycle of untagged type references / CHOICE
+   alternatives (a legal recursive CHOICE suffices), the resolver does not return on cyclic IMPORTS of an
+   undefined name: both are stack overflows that abort the process (`3 32`), not error values. *)
+From Coq Require Import String.
+From A1 Require Import Front.Lex Front.Parse Front.ParseProofs Front.Resolve Extract.OpsParse.
+Local Open Scope Z_scope.
+
+Theorem C14_lex_total_partial : forall m s,
+  (forall p, tokenize m s = Panic p -> p = P_OTHER \/ (p = P_ARITH /\ overflow_checks m = true)) /\
+  (forall e, tokenize m s <> Err e).
+Proof. exact tokenize_outcomes. Qed.
+
+Definition txt (s : string) : list Z := map Z.of_N (s2n s).
+
+(* a legal recursive CHOICE: tokenizer, parser and resolver succeed, Model::to_rust does not return *)
+Example C14_refuted_to_rust_unbounded_recursion_on_recursive_untagged_type :
+  op_3303 dev_mode (0 :: txt "M DEFINITIONS ::= BEGIN Expr ::= CHOICE { lit INTEGER, neg Expr } END") = [3; 32] /\
+  hd 1 (op_3301 dev_mode (txt "M DEFINITIONS ::= BEGIN Expr ::= CHOICE { lit INTEGER, neg Expr } END")) = 0 /\
+  op_3303 dev_mode (0 :: txt "M DEFINITIONS ::= BEGIN A ::= B B ::= A END") = [3; 32] /\
+  (* a tagged step ends the recursion *)
+  op_3303 release_mode (0 :: txt "M DEFINITIONS ::= BEGIN A ::= [1] B B ::= A END") = [0; 0; 1; 0; 2; 0; 3; 0].
+Proof. repeat split; vm_compute; reflexivity. Qed.
+
+Example C14_refuted_resolver_unbounded_recursion_on_cyclic_import :
+  op_3303 dev_mode (0 :: txt "M DEFINITIONS ::= BEGIN IMPORTS x FROM M; A ::= INTEGER (0..x) END") = [3; 32] /\
+  (* the same reference without the import is an ordinary resolve error *)
+  op_3303 dev_mode (0 :: txt "M DEFINITIONS ::= BEGIN A ::= INTEGER (0..x) END") = [0; 0; 1; 0; 2; 1; 1; 0; 0; 0; 0].
+Proof. split; vm_compute; reflexivity. Qed.
+
+(* non-vacuity / the sanctioned panic and an error with its token: line 1, column 44, one character *)
+Example C14_nonvacuous :
+  tokenize dev_mode (s2n "M DEFINITIONS ::= BEGIN A ::= BOOLEAN /* open") = Panic P_OTHER /\
+  op_3303 dev_mode (0 :: txt "M DEFINITIONS ::= BEGIN A ::= SEQUENCE { x ) END") = [0; 0; 1; 1; 0; 1; 1; 44; 1].
+Proof. split; vm_compute; reflexivity. Qed.
+
+Print Assumptions C14_lex_total_partial.
+Print Assumptions C14_refuted_to_rust_unbounded_recursion_on_recursive_untagged_type.
+Print Assumptions C14_refuted_resolver_unbounded_recursion_on_cyclic_import.
